@@ -9,6 +9,7 @@ import os
 from sim.core.base import Check, RunResult, Streams, canon
 from sim.core.gateway import make_environ, call_app
 from sim.core.sched import BatonScheduler
+from sim.core.seams import SimClock
 from sim.core import runner
 from sim.worlds import threads_app
 
@@ -129,7 +130,7 @@ class C12(Check):
     level_note = ('Trusted: CPython 3.12 sys.monitoring event delivery, the baton scheduler, GIL atomicity of '
                   'single instructions. Yield points exist only in clastic/generated/harness code.')
     runs = {'quick': 4000, 'thorough': 100000}
-    shrink_lists = (('preempts',), ('requests',), ('marathon', 'T0'), ('marathon', 'T1'), ('marathon', 'T2'), ('marathon', 'T3'))
+    shrink_lists = (('preempts',), ('ticks',), ('requests',), ('marathon', 'T0'), ('marathon', 'T1'), ('marathon', 'T2'), ('marathon', 'T3'))
     hashseeds = {'quick': [1], 'thorough': [1, 2]}
     rule = ('seeded schedules (PCT priority-change, uniform random, targeted bursts) plus a complete '
             'depth-1 pre-emption sweep over ordered request pairs; 2-4 real threads on one shared '
@@ -197,7 +198,9 @@ class C12(Check):
                 'order': order, 'preempts': pre, 'mode': mode,
                 # cold: the threads hit a freshly built application whose very first requests these are
                 # (lazy initialisation races); the expected responses come from a warm twin
-                'cold': S['config'].random() < 0.3}
+                'cold': S['config'].random() < 0.3,
+                # the wall clock (time.time is the simulated clock during the run) ticks at these yield points
+                'ticks': sorted([sch.randint(1, max(1, total)), sch.choice([1.0, 1.0, 0.4, 61.0])] for _ in range(sch.choice([0, 0, 1, 2, 3])))}
 
     def depth1_plans(self, tier, base_seed):
         """Complete depth-1 sweep: for ordered pairs (A, B): run A to yield
@@ -303,6 +306,17 @@ class C12(Check):
     def execute(self, plan):
         if plan.get('marathon'):
             return self.execute_marathon(plan)
+        # every clock read in the process is the simulated clock while the run lasts
+        import time as _time
+        real_time = _time.time
+        clock = SimClock()
+        _time.time = clock.read
+        try:
+            return self._execute(plan, clock)
+        finally:
+            _time.time = real_time
+
+    def _execute(self, plan, clock):
         res = RunResult()
         app = app_for(plan['config'])
         reqs = plan['requests']
@@ -329,8 +343,11 @@ class C12(Check):
         if cold:
             app = threads_app.build(plan['config'])      # nobody has called it yet
             res.probe('cold-application')
-        sched = BatonScheduler(order, plan['preempts'], plan['granularity'], WATCH)
+        sched = BatonScheduler(order, plan['preempts'], plan['granularity'], WATCH, ticks=plan.get('ticks'), clock=clock)
         sched.run(tasks)
+        if plan.get('ticks'):
+            res.fire('clock_tick_during_requests', len(plan['ticks']))
+        res.sim_time = clock.covered
         res.steps = sched.steps
         inter = hashlib.sha1(canon([(a, b, c, d) for (_, a, b, c, d) in sched.switches]).encode()).hexdigest()[:16]
         res.extra['interleaving'] = inter
